@@ -505,6 +505,15 @@ func reifyMergeValue(
 	oldValue reflect.Value, val value,
 ) (reflect.Value, Error) {
 	old := chaseValueInterfaces(oldValue)
+	if oldValue.Kind() == reflect.Interface && oldValue.Type().NumMethod() == 0 &&
+		isPrimitiveKind(old.Kind()) && old.Type().PkgPath() == "" {
+		// an interface{} that holds a plain number, string or bool - what an
+		// earlier Unpack stored there: there is nothing to merge into, and
+		// the type of the old value says nothing about the new one. (A value
+		// of a named type, a time.Duration say, still lends its type.)
+		return reifyValue(opts, oldValue.Type(), val)
+	}
+
 	t := old.Type()
 	old = chaseValuePointers(old)
 	if (old.Kind() == reflect.Ptr || old.Kind() == reflect.Interface) && old.IsNil() {
